@@ -119,7 +119,7 @@ Definition tree_labels (st : state) : list str := map fst (trees st).
 
 Definition product_role (r : role) : bool := negb (role_eqb r RStatic).
 
-Record Inv (gm : str -> str -> bool) (st : state) : Prop := mkInv {
+Record Inv (gm : str -> str -> bool) (gr : bool) (st : state) : Prop := mkInv {
   inv_uniq : NoDup (map fst (claims st));
   inv_tnodup : NoDup (tree_labels st);
   inv_anti : forall t t', In t (tree_labels st) -> In t' (tree_labels st) ->
@@ -128,7 +128,10 @@ Record Inv (gm : str -> str -> bool) (st : state) : Prop := mkInv {
                            is_prefix t p = true -> c_role cl = RStatic /\ c_by cl = CTree t;
   inv_gm : forall g m, In g (globs st) -> In m (g_ms g) -> gm (g_pat g) m = true;
   inv_gprod : forall g m cl, In g (globs st) -> In m (g_ms g) -> In (m, cl) (claims st) ->
-                             c_role cl = RStatic
+                             c_role cl = RStatic;
+  (* only when register_nglob scans the products (after the fix of D3) *)
+  inv_gfull : gr = true -> forall g p cl, In g (globs st) -> In (p, cl) (claims st) ->
+                             gm (g_pat g) p = true -> c_role cl = RStatic
 }.
 
 Lemma role_eqb_eq a b : role_eqb a b = true <-> a = b.
@@ -143,7 +146,7 @@ Proof.
   - inversion H. apply str_eqb_refl.
 Qed.
 
-Lemma Inv_empty gm : Inv gm empty_state.
+Lemma Inv_empty gm gr : Inv gm gr empty_state.
 Proof. constructor; cbn; try constructor; intros; tauto. Qed.
 
 Ltac dres H :=
@@ -159,20 +162,28 @@ Ltac dres H :=
 Section Proofs.
 
 Variable gm : str -> str -> bool.
+Variable ow : bool.
+Variable gr : bool.
+
+Lemma is_prefix_probe t p : is_prefix t p = true -> is_prefix t (probe ow p) = true.
+Proof. unfold probe. destruct ow; [apply is_prefix_with_slash|auto]. Qed.
+
+Lemma probe_with_slash p : probe ow (with_slash p) = with_slash p.
+Proof. unfold probe. destruct ow; [apply with_slash_idem|reflexivity]. Qed.
 
 Lemma find_owner_none st p :
-  find_owner st p = Ok None -> forall t, In t (tree_labels st) -> is_prefix t (with_slash p) = false.
+  find_owner ow st p = Ok None -> forall t, In t (tree_labels st) -> is_prefix t (probe ow p) = false.
 Proof.
-  unfold find_owner. intros H t Hin. destruct (owners st p) as [|a [|b l]] eqn:E; try discriminate.
+  unfold find_owner. intros H t Hin. destruct (owners ow st p) as [|a [|b l]] eqn:E; try discriminate.
   unfold tree_labels in Hin. apply in_map_iff in Hin as [[t' c] [<- Hin]].
   apply (filter_nil _ _ E (t', c) Hin).
 Qed.
 
 Lemma find_owner_some st p t tc :
-  find_owner st p = Ok (Some (t, tc)) -> In (t, tc) (trees st) /\ is_prefix t (with_slash p) = true.
+  find_owner ow st p = Ok (Some (t, tc)) -> In (t, tc) (trees st) /\ is_prefix t (probe ow p) = true.
 Proof.
-  unfold find_owner. intros H. destruct (owners st p) as [|a [|b l]] eqn:E; try discriminate.
-  inversion H; subst. assert (Hin : In (t, tc) (owners st p)) by (rewrite E; now left).
+  unfold find_owner. intros H. destruct (owners ow st p) as [|a [|b l]] eqn:E; try discriminate.
+  inversion H; subst. assert (Hin : In (t, tc) (owners ow st p)) by (rewrite E; now left).
   unfold owners in Hin. apply filter_In in Hin. exact Hin.
 Qed.
 
@@ -181,12 +192,12 @@ Proof. intros H. unfold tree_labels. apply in_map_iff. exists (t, tc). auto. Qed
 
 (* Any tree that is a prefix of p coincides with a tree known to be a prefix of p/ . *)
 Lemma owner_unique st p t t' :
-  Inv gm st -> In t (tree_labels st) -> In t' (tree_labels st) ->
-  is_prefix t (with_slash p) = true -> is_prefix t' (with_slash p) = true -> t = t'.
+  Inv gm gr st -> In t (tree_labels st) -> In t' (tree_labels st) ->
+  is_prefix t (probe ow p) = true -> is_prefix t' (probe ow p) = true -> t = t'.
 Proof.
   intros HI Ht Ht' H1 H2. destruct (prefix_comparable _ _ _ H1 H2) as [H|H].
-  - now apply (inv_anti _ _ HI).
-  - symmetry. now apply (inv_anti _ _ HI).
+  - now apply (inv_anti _ _ _ HI).
+  - symmetry. now apply (inv_anti _ _ _ HI).
 Qed.
 
 Lemma in_remove_str k x l : In x (remove_str k l) -> In x l.
@@ -194,54 +205,59 @@ Proof. unfold remove_str. intros H. apply filter_In in H. tauto. Qed.
 
 (* Adding one claim. *)
 Lemma set_claim_inv st p r c :
-  Inv gm st ->
+  Inv gm gr st ->
   lookup p (claims st) = None ->
   (forall t, In t (tree_labels st) -> is_prefix t p = true -> r = RStatic /\ c = CTree t) ->
-  (product_role r = true -> forall g, In g (globs st) -> ~ In p (g_ms g)) ->
-  Inv gm (set_claim st p (mkClaim r c)).
+  (product_role r = true -> forall g, In g (globs st) -> gm (g_pat g) p = false) ->
+  Inv gm gr (set_claim st p (mkClaim r c)).
 Proof.
   intros HI Hl Hown Hg. constructor; cbn.
-  - constructor; [now apply lookup_none_notin | apply (inv_uniq _ _ HI)].
-  - apply (inv_tnodup _ _ HI).
-  - apply (inv_anti _ _ HI).
+  - constructor; [now apply lookup_none_notin | apply (inv_uniq _ _ _ HI)].
+  - apply (inv_tnodup _ _ _ HI).
+  - apply (inv_anti _ _ _ HI).
   - intros q cl t [Hin|Hin] Ht Hp.
     + inversion Hin; subst. cbn. now apply Hown.
-    + now apply (inv_own _ _ HI q cl t).
-  - apply (inv_gm _ _ HI).
+    + now apply (inv_own _ _ _ HI q cl t).
+  - apply (inv_gm _ _ _ HI).
   - intros g m cl Hgin Hm [Hin|Hin].
-    + inversion Hin; subst. cbn. destruct r; try reflexivity; exfalso; now apply (Hg eq_refl g Hgin).
-    + now apply (inv_gprod _ _ HI g m cl).
+    + inversion Hin as [[E1 E2]]. cbn. rewrite <- E1 in Hm. destruct r; try reflexivity; exfalso;
+        pose proof (Hg eq_refl g Hgin) as Hf; rewrite (inv_gm _ _ _ HI g p Hgin Hm) in Hf; discriminate.
+    + now apply (inv_gprod _ _ _ HI g m cl).
+  - intros Hgr g q cl Hgin [Hin|Hin] Hm.
+    + inversion Hin as [[E1 E2]]. cbn. rewrite <- E1 in Hm. destruct r; try reflexivity; exfalso;
+        pose proof (Hg eq_refl g Hgin) as Hf; rewrite Hm in Hf; discriminate.
+    + now apply (inv_gfull _ _ _ HI Hgr g q cl).
 Qed.
 
 Definition tree_decl_ok (st : state) (c : creator) (r : role) (p : str) : Prop :=
   forall t, c = CTree t ->
-    r = RStatic /\ In t (tree_labels st) /\ is_prefix t (with_slash p) = true.
+    r = RStatic /\ In t (tree_labels st) /\ is_prefix t (probe ow p) = true.
 
 Definition same_frame (st st' : state) : Prop :=
   trees st' = trees st /\ steps st' = steps st /\ globs st' = globs st.
 
 Lemma owner_guard_ok st p r a :
-  bind (find_owner st p) (fun o : option (str * creator) =>
+  bind (find_owner ow st p) (fun o : option (str * creator) =>
        match o with
        | Some (t, _) => if role_eqb r RStatic then Err (MTreeFile t p) else Err (MTreeProduct t p)
        | None => Ok tt
-       end) = Ok a -> find_owner st p = Ok None.
+       end) = Ok a -> find_owner ow st p = Ok None.
 Proof.
-  intros H. destruct (find_owner st p) as [[[t tc]|]|m]; cbn in H; try discriminate; [|reflexivity].
+  intros H. destruct (find_owner ow st p) as [[[t tc]|]|m]; cbn in H; try discriminate; [|reflexivity].
   destruct (role_eqb r RStatic); discriminate.
 Qed.
 
 Lemma no_tree_prefix st p :
-  find_owner st p = Ok None -> forall t, In t (tree_labels st) -> is_prefix t p = true -> False.
+  find_owner ow st p = Ok None -> forall t, In t (tree_labels st) -> is_prefix t p = true -> False.
 Proof.
-  intros H t Ht Hp. apply is_prefix_with_slash in Hp.
+  intros H t Ht Hp. apply is_prefix_probe in Hp.
   rewrite (find_owner_none _ _ H t Ht) in Hp. discriminate.
 Qed.
 
 Lemma declare_file_inv c r st p st' :
-  Inv gm st -> tree_decl_ok st c r p ->
-  (product_role r = true -> forall g, In g (globs st) -> ~ In p (g_ms g)) ->
-  declare_file c r st p = Ok st' -> Inv gm st' /\ same_frame st st'.
+  Inv gm gr st -> tree_decl_ok st c r p ->
+  (product_role r = true -> forall g, In g (globs st) -> gm (g_pat g) p = false) ->
+  declare_file ow c r st p = Ok st' -> Inv gm gr st' /\ same_frame st st'.
 Proof.
   intros HI Hc Hg H. unfold declare_file in H.
   destruct (role_eqb r RVolatile && ends_with_c SLASH p); [discriminate|].
@@ -253,7 +269,7 @@ Proof.
   - cbn [bind] in H. dres H. inversion H; subst. split; [|repeat split].
     destruct (Hc t0 eq_refl) as [-> [Ht0 Hp0]].
     apply set_claim_inv; auto. intros t Ht Hp. split; [reflexivity|].
-    f_equal. apply is_prefix_with_slash in Hp. symmetry. eapply owner_unique; eauto.
+    f_equal. apply is_prefix_probe in Hp. symmetry. eapply owner_unique; eauto.
 Qed.
 
 Lemma same_frame_refl st : same_frame st st.
@@ -263,16 +279,16 @@ Lemma same_frame_trans a b c : same_frame a b -> same_frame b c -> same_frame a 
 Proof. intros [H1 [H2 H3]] [H4 [H5 H6]]. repeat split; congruence. Qed.
 
 Lemma Inv_frame st st' :
-  claims st' = claims st -> trees st' = trees st -> globs st' = globs st -> Inv gm st -> Inv gm st'.
+  claims st' = claims st -> trees st' = trees st -> globs st' = globs st -> Inv gm gr st -> Inv gm gr st'.
 Proof.
   intros Hc Ht Hg HI. destruct HI. constructor; unfold tree_labels in *; rewrite ?Hc, ?Ht, ?Hg; auto.
 Qed.
 
 Lemma fold_res_inv {A} (f : state -> A -> res state) (P : state -> A -> Prop) :
-  (forall st a st', Inv gm st -> P st a -> f st a = Ok st' -> Inv gm st' /\ same_frame st st') ->
+  (forall st a st', Inv gm gr st -> P st a -> f st a = Ok st' -> Inv gm gr st' /\ same_frame st st') ->
   (forall st st' a, same_frame st st' -> P st a -> P st' a) ->
-  forall l st st', Inv gm st -> (forall a, In a l -> P st a) -> fold_res f l st = Ok st' ->
-  Inv gm st' /\ same_frame st st'.
+  forall l st st', Inv gm gr st -> (forall a, In a l -> P st a) -> fold_res f l st = Ok st' ->
+  Inv gm gr st' /\ same_frame st st'.
 Proof.
   intros Hstep Hmono. induction l as [|a l IH]; intros st st' HI HP H; cbn in H.
   - inversion H; subst. split; [assumption|apply same_frame_refl].
@@ -305,19 +321,19 @@ Proof.
 Qed.
 
 Lemma supply_inv st p st' :
-  Inv gm st -> supply st p = Ok st' -> Inv gm st' /\ same_frame st st'.
+  Inv gm gr st -> supply ow st p = Ok st' -> Inv gm gr st' /\ same_frame st st'.
 Proof.
   intros HI H. unfold supply in H.
   destruct (lookup p (claims st)) as [cl|] eqn:El.
   - destruct (role_eqb (c_role cl) RVolatile); [discriminate|]. inversion H; subst.
     split; [assumption|apply same_frame_refl].
-  - destruct (find_owner st p) as [o|m] eqn:Eo; cbn [bind] in H; [|discriminate].
+  - destruct (find_owner ow st p) as [o|m] eqn:Eo; cbn [bind] in H; [|discriminate].
     destruct (bad_name p); [discriminate|].
     destruct o as [[t tc]|].
     + inversion H; subst. split; [|repeat split].
       apply find_owner_some in Eo as [Hin Hp].
       apply set_claim_inv; auto.
-      * intros t' Ht' Hp'. split; [reflexivity|]. f_equal. apply is_prefix_with_slash in Hp'.
+      * intros t' Ht' Hp'. split; [reflexivity|]. f_equal. apply is_prefix_probe in Hp'.
         symmetry. eapply owner_unique; eauto. eapply in_tree_labels; eauto.
       * cbn. discriminate.
     + inversion H; subst. destruct (mem_str p (loose st)).
@@ -326,24 +342,24 @@ Proof.
 Qed.
 
 Lemma fold_supply_inv ps st st' :
-  Inv gm st -> fold_res supply ps st = Ok st' -> Inv gm st' /\ same_frame st st'.
+  Inv gm gr st -> fold_res (supply ow) ps st = Ok st' -> Inv gm gr st' /\ same_frame st st'.
 Proof.
   intros HI H.
-  apply (fold_res_inv supply (fun _ _ => True)) with (l := ps); auto.
+  apply (fold_res_inv (supply ow) (fun _ _ => True)) with (l := ps); auto.
   intros s a s' HIs _ Hs. eapply supply_inv; eauto.
 Qed.
 
 Definition glob_free (st : state) (p : str) : Prop :=
-  forall g, In g (globs st) -> ~ In p (g_ms g).
+  forall g, In g (globs st) -> gm (g_pat g) p = false.
 
 Lemma fold_declare_inv c r ps st st' :
-  Inv gm st ->
+  Inv gm gr st ->
   (forall p, In p ps -> tree_decl_ok st c r p) ->
   (product_role r = true -> forall p, In p ps -> glob_free st p) ->
-  fold_res (declare_file c r) ps st = Ok st' -> Inv gm st' /\ same_frame st st'.
+  fold_res (declare_file ow c r) ps st = Ok st' -> Inv gm gr st' /\ same_frame st st'.
 Proof.
   intros HI Hc Hg H.
-  apply (fold_res_inv (declare_file c r)
+  apply (fold_res_inv (declare_file ow c r)
            (fun s p => tree_decl_ok s c r p /\ (product_role r = true -> glob_free s p)))
     with (l := ps); auto.
   - intros s a s' HIs [H1 H2] Hs. eapply declare_file_inv; eauto.
@@ -353,12 +369,12 @@ Qed.
 
 (* declare_static_files *)
 Lemma static_check_ok c st p o :
-  Inv gm st -> tree_decl_ok st c RStatic p -> static_check c st p = Ok o ->
+  Inv gm gr st -> tree_decl_ok st c RStatic p -> static_check ow c st p = Ok o ->
   match o with Some (d, q) => q = p /\ tree_decl_ok st d RStatic p | None => True end.
 Proof.
   intros HI Hc H. unfold static_check in H.
   destruct c as [|l|t0]; cbn [bind] in H.
-  - destruct (find_owner st p) as [[[t tc]|]|m] eqn:Eo; cbn [bind] in H; try discriminate.
+  - destruct (find_owner ow st p) as [[[t tc]|]|m] eqn:Eo; cbn [bind] in H; try discriminate.
     + destruct (creator_eqb tc CRoot); cbn [bind] in H; [|discriminate].
       destruct (check_decl st (WNode (CTree t)) p RStatic) as [b|]; cbn [bind] in H; [|discriminate].
       inversion H; subst. destruct b; [|exact I]. split; [reflexivity|].
@@ -366,7 +382,7 @@ Proof.
       repeat split; auto. eapply in_tree_labels; eauto.
     + destruct (check_decl st (WNode CRoot) p RStatic) as [b|]; cbn [bind] in H; [|discriminate].
       inversion H; subst. destruct b; [|exact I]. split; [reflexivity|]. intros t' Ht'. discriminate.
-  - destruct (find_owner st p) as [[[t tc]|]|m] eqn:Eo; cbn [bind] in H; try discriminate.
+  - destruct (find_owner ow st p) as [[[t tc]|]|m] eqn:Eo; cbn [bind] in H; try discriminate.
     + destruct (creator_eqb tc (CStep l)); cbn [bind] in H; [|discriminate].
       destruct (check_decl st (WNode (CTree t)) p RStatic) as [b|]; cbn [bind] in H; [|discriminate].
       inversion H; subst. destruct b; [|exact I]. split; [reflexivity|].
@@ -379,14 +395,14 @@ Proof.
 Qed.
 
 Lemma static_checks_ok c st ps todo :
-  Inv gm st -> (forall p, In p ps -> tree_decl_ok st c RStatic p) ->
-  static_checks c st ps = Ok todo ->
+  Inv gm gr st -> (forall p, In p ps -> tree_decl_ok st c RStatic p) ->
+  static_checks ow c st ps = Ok todo ->
   forall dp, In dp todo -> tree_decl_ok st (fst dp) RStatic (snd dp).
 Proof.
   intros HI. revert todo. induction ps as [|p ps IH]; intros todo Hc H dp Hin; cbn in H.
   - inversion H; subst. destruct Hin.
-  - destruct (static_check c st p) as [o|] eqn:E1; cbn [bind] in H; [|discriminate].
-    destruct (static_checks c st ps) as [l|] eqn:E2; cbn [bind] in H; [|discriminate].
+  - destruct (static_check ow c st p) as [o|] eqn:E1; cbn [bind] in H; [|discriminate].
+    destruct (static_checks ow c st ps) as [l|] eqn:E2; cbn [bind] in H; [|discriminate].
     inversion H; subst.
     pose proof (static_check_ok c st p o HI (Hc p (or_introl eq_refl)) E1) as Ho.
     assert (IH' : forall dp, In dp l -> tree_decl_ok st (fst dp) RStatic (snd dp)).
@@ -397,15 +413,15 @@ Proof.
 Qed.
 
 Lemma declare_static_files_inv c st ps st' :
-  Inv gm st -> (forall p, In p ps -> tree_decl_ok st c RStatic p) ->
-  declare_static_files c st ps = Ok st' -> Inv gm st' /\ same_frame st st'.
+  Inv gm gr st -> (forall p, In p ps -> tree_decl_ok st c RStatic p) ->
+  declare_static_files ow c st ps = Ok st' -> Inv gm gr st' /\ same_frame st st'.
 Proof.
   intros HI Hc H. unfold declare_static_files in H.
-  destruct (static_checks c st (sort_uniq ps)) as [todo|] eqn:E; cbn [bind] in H; [|discriminate].
+  destruct (static_checks ow c st (sort_uniq ps)) as [todo|] eqn:E; cbn [bind] in H; [|discriminate].
   assert (Hok : forall dp, In dp todo -> tree_decl_ok st (fst dp) RStatic (snd dp)).
   { apply (static_checks_ok c st (sort_uniq ps) todo HI); [|exact E].
     intros p Hp. apply Hc. now apply sort_uniq_in. }
-  apply (fold_res_inv (fun s dp => declare_file (fst dp) RStatic s (snd dp))
+  apply (fold_res_inv (fun s dp => declare_file ow (fst dp) RStatic s (snd dp))
            (fun s dp => tree_decl_ok s (fst dp) RStatic (snd dp))) with (l := todo); auto.
   - intros s a s' HIs Ha Hs. eapply declare_file_inv; eauto. cbn. discriminate.
   - intros s s' a Hf Ha. eapply tree_decl_ok_frame; eauto.
@@ -441,7 +457,7 @@ Proof.
 Qed.
 
 Lemma register_tree_inv c path st st' :
-  Inv gm st -> register_tree c path st = Ok st' -> Inv gm st'.
+  Inv gm gr st -> register_tree ow c path st = Ok st' -> Inv gm gr st'.
 Proof.
   intros HI H. unfold register_tree in H.
   destruct (require_step st c); cbn [bind] in H; [|discriminate].
@@ -449,7 +465,7 @@ Proof.
   set (d := with_slash path) in *.
   destruct (str_eqb d [46; SLASH] || str_eqb d []); [discriminate|].
   destruct (str_eqb d [SLASH]); [discriminate|].
-  destruct (find_owner st d) as [o|] eqn:Eo; cbn [bind] in H; [|discriminate].
+  destruct (find_owner ow st d) as [o|] eqn:Eo; cbn [bind] in H; [|discriminate].
   destruct o as [[t tc]|].
   - destruct (creator_eqb tc c).
     + inversion H; subst. assumption.
@@ -461,7 +477,7 @@ Proof.
       as [[p cl]|] eqn:Emin.
     { destruct (negb (role_eqb (c_role cl) RStatic)); discriminate. }
     apply min_entry_none in Emin.
-    assert (Hdd : with_slash d = d) by (apply with_slash_idem).
+    assert (Hdd : probe ow d = d) by (apply probe_with_slash).
     assert (Hnopre : forall t, In t (tree_labels st) -> is_prefix t d = false).
     { intros t Ht. rewrite <- Hdd. eapply find_owner_none; eauto. }
     assert (Hnosub : forall t, In t (tree_labels st) -> is_prefix d t = false).
@@ -477,16 +493,16 @@ Proof.
       { apply (filter_nil _ _ Emin). apply filter_In. split; [|exact Hp]. exact Hin. }
       unfold offending in Hf. cbn in Hf. apply orb_false_iff in Hf as [Hf _].
       apply negb_false_iff in Hf. now apply role_eqb_eq. }
-    match type of H with declare_static_files _ ?s _ = _ => set (st1 := s) in * end.
-    assert (HI1 : Inv gm st1).
+    match type of H with declare_static_files _ _ ?s _ = _ => set (st1 := s) in * end.
+    assert (HI1 : Inv gm gr st1).
     { constructor; cbn.
-      - fold (handover d (claims st)). rewrite handover_keys. apply (inv_uniq _ _ HI).
-      - constructor; [|apply (inv_tnodup _ _ HI)]. intros Hin.
+      - fold (handover d (claims st)). rewrite handover_keys. apply (inv_uniq _ _ _ HI).
+      - constructor; [|apply (inv_tnodup _ _ _ HI)]. intros Hin.
         pose proof (Hnopre d Hin) as Hx. rewrite is_prefix_refl in Hx. discriminate.
       - intros t t' [<-|Ht] [<-|Ht'] Hp; auto.
         + rewrite (Hnosub t' Ht') in Hp. discriminate.
         + rewrite (Hnopre t Ht) in Hp. discriminate.
-        + now apply (inv_anti _ _ HI).
+        + now apply (inv_anti _ _ _ HI).
       - fold (handover d (claims st)). intros p cl t Hin Ht Hp.
         apply handover_in in Hin as [cl0 [Hin0 [Hrole Hby]]].
         destruct Ht as [<-|Ht].
@@ -495,14 +511,17 @@ Proof.
           * exfalso. destruct (prefix_comparable _ _ _ Hp Edp) as [Hx|Hx].
             -- rewrite (Hnopre t Ht) in Hx. discriminate.
             -- rewrite (Hnosub t Ht) in Hx. discriminate.
-          * subst cl0. now apply (inv_own _ _ HI p cl t).
-      - apply (inv_gm _ _ HI).
+          * subst cl0. now apply (inv_own _ _ _ HI p cl t).
+      - apply (inv_gm _ _ _ HI).
       - fold (handover d (claims st)). intros g m cl Hg Hm Hin.
         apply handover_in in Hin as [cl0 [Hin0 [Hrole _]]]. rewrite Hrole.
-        now apply (inv_gprod _ _ HI g m cl0). }
+        now apply (inv_gprod _ _ _ HI g m cl0).
+      - fold (handover d (claims st)). intros Hgr g q cl Hg Hin Hm.
+        apply handover_in in Hin as [cl0 [Hin0 [Hrole _]]]. rewrite Hrole.
+        now apply (inv_gfull _ _ _ HI Hgr g q cl0). }
     eapply declare_static_files_inv in H; [tauto|exact HI1|].
     intros p Hp t Ht. inversion Ht; subst t. apply filter_In in Hp as [_ Hp].
-    repeat split; [now left|]. now apply is_prefix_with_slash.
+    repeat split; [now left|]. now apply is_prefix_probe.
 Qed.
 
 Lemma first_product_none st ms :
@@ -513,20 +532,31 @@ Proof.
 Qed.
 
 Lemma register_glob_inv s pat ms st st' :
-  Inv gm st -> register_glob gm s pat ms st = Ok st' -> Inv gm st'.
+  Inv gm gr st -> register_glob gm gr s pat ms st = Ok st' -> Inv gm gr st'.
 Proof.
   intros HI H. unfold register_glob in H.
   destruct (require_step st (CStep s)); cbn [bind] in H; [|discriminate].
   set (ms' := sort_uniq (filter (gm pat) ms)) in *.
-  destruct (first_product st ms') as [[p cl]|] eqn:Ef; [discriminate|].
+  set (prodf := fun pc : str * claim => negb (role_eqb (c_role (snd pc)) RStatic) && gm pat (fst pc)) in *.
+  destruct (if gr then min_entry (filter prodf (claims st)) else first_product st ms')
+    as [[p cl]|] eqn:Ef; [discriminate|].
   destruct (find_first (is_prefix stepup_prefix) ms'); [discriminate|].
-  inversion H; subst. destruct HI. constructor; cbn; auto.
+  inversion H; subst.
+  assert (Hms : forall m, In m ms' -> gm pat m = true).
+  { intros m Hm. unfold ms' in Hm. apply (proj1 (sort_uniq_in _ _)) in Hm. apply filter_In in Hm. tauto. }
+  assert (Hscan : gr = true -> forall q cl, In (q, cl) (claims st) -> gm pat q = true -> c_role cl = RStatic).
+  { intros Hgr q cl Hin Hm. rewrite Hgr in Ef. apply min_entry_none in Ef.
+    pose proof (filter_nil _ _ Ef (q, cl) Hin) as Hf. unfold prodf in Hf. cbn in Hf.
+    rewrite Hm, andb_true_r in Hf. apply negb_false_iff in Hf. now apply role_eqb_eq. }
+  destruct HI. constructor; cbn; auto.
   - intros g m Hg Hm. apply in_app_or in Hg as [Hg|[<-|[]]]; auto.
-    cbn in *. unfold ms' in Hm. apply (proj1 (sort_uniq_in _ _)) in Hm. apply filter_In in Hm. tauto.
   - intros g m cl Hg Hm Hin. apply in_app_or in Hg as [Hg|[<-|[]]]; eauto.
-    cbn in Hm. pose proof (first_product_none _ _ Ef m Hm) as Hp. unfold is_product in Hp.
-    rewrite (lookup_in_nodup _ _ _ inv_uniq0 Hin) in Hp.
-    destruct (role_eqb (c_role cl) RStatic) eqn:Er; [now apply role_eqb_eq|discriminate].
+    cbn in Hm. destruct gr eqn:Egr.
+    + apply (Hscan eq_refl m cl Hin). now apply Hms.
+    + pose proof (first_product_none _ _ Ef m Hm) as Hp. unfold is_product in Hp.
+      rewrite (lookup_in_nodup _ _ _ inv_uniq0 Hin) in Hp.
+      destruct (role_eqb (c_role cl) RStatic) eqn:Er; [now apply role_eqb_eq|discriminate].
+  - intros Hgr g q cl Hg Hin Hm. apply in_app_or in Hg as [Hg|[<-|[]]]; eauto.
 Qed.
 
 Lemma find_first_none {A} (f : A -> bool) l : find_first f l = None -> forall x, In x l -> f x = false.
@@ -544,12 +574,8 @@ Proof.
 Qed.
 
 Lemma glob_free_of_check st lbl ps p :
-  Inv gm st -> glob_check gm (globs st) lbl ps = Ok tt -> In p ps -> glob_free st p.
-Proof.
-  intros HI H Hp g Hg Hin.
-  pose proof (glob_check_ok _ _ _ H g p Hg Hp) as Hf.
-  rewrite (inv_gm _ _ HI g p Hg Hin) in Hf. discriminate.
-Qed.
+  glob_check gm (globs st) lbl ps = Ok tt -> In p ps -> glob_free st p.
+Proof. intros H Hp g Hg. eapply glob_check_ok; eauto. Qed.
 
 Lemma check_all_incl st w r ps l : check_all st w r ps = Ok l -> incl l ps.
 Proof.
@@ -569,7 +595,7 @@ Lemma unit_res_tt (r : res unit) u : r = Ok u -> r = Ok tt.
 Proof. destruct u. auto. Qed.
 
 Lemma define_step_inv c lbl inps outs vols st st' :
-  Inv gm st -> define_step gm c lbl inps outs vols st = Ok st' -> Inv gm st'.
+  Inv gm gr st -> define_step gm ow c lbl inps outs vols st = Ok st' -> Inv gm gr st'.
 Proof.
   intros HI H. unfold define_step in H.
   destruct (require_step st c); cbn [bind] in H; [|discriminate].
@@ -583,14 +609,14 @@ Proof.
   destruct (check_all st (WPhrase (phrase_step lbl)) ROutput (sort_uniq outs)); cbn [bind] in H; [|discriminate].
   destruct (check_all st (WPhrase (phrase_step lbl)) RVolatile (sort_uniq vols)); cbn [bind] in H; [|discriminate].
   destruct (overlap_check (phrase_step lbl) (sort_uniq outs) (sort_uniq vols)); cbn [bind] in H; [|discriminate].
-  match type of H with bind (fold_res supply _ ?s) _ = _ => set (st1 := s) in * end.
-  assert (HI1 : Inv gm st1) by (eapply Inv_frame; [| | |exact HI]; reflexivity).
+  match type of H with bind (fold_res (supply ow) _ ?s) _ = _ => set (st1 := s) in * end.
+  assert (HI1 : Inv gm gr st1) by (eapply Inv_frame; [| | |exact HI]; reflexivity).
   assert (Hgf : forall p, In p (sort_uniq outs) \/ In p (sort_uniq vols) -> glob_free st1 p).
-  { intros p Hp. apply (glob_free_of_check st1 lbl (sort_uniq (sort_uniq outs ++ sort_uniq vols))); auto.
+  { intros p Hp. apply (glob_free_of_check st1 lbl (sort_uniq (sort_uniq outs ++ sort_uniq vols))); [exact Eg|].
     apply sort_uniq_in. apply in_or_app. exact Hp. }
-  destruct (fold_res supply (sort_uniq inps) st1) as [st2|] eqn:E2; cbn [bind] in H; [|discriminate].
+  destruct (fold_res (supply ow) (sort_uniq inps) st1) as [st2|] eqn:E2; cbn [bind] in H; [|discriminate].
   destruct (fold_supply_inv _ _ _ HI1 E2) as [HI2 Hf2].
-  destruct (fold_res (declare_file (CStep lbl) ROutput) (sort_uniq outs) st2) as [st3|] eqn:E3;
+  destruct (fold_res (declare_file ow (CStep lbl) ROutput) (sort_uniq outs) st2) as [st3|] eqn:E3;
     cbn [bind] in H; [|discriminate].
   destruct (fold_declare_inv _ _ _ _ _ HI2
               (fun p _ => non_tree_decl_ok st2 (CStep lbl) ROutput p ltac:(discriminate))
@@ -603,12 +629,12 @@ Proof.
 Qed.
 
 Lemma amend_step_inv s inps outs vols st st' :
-  Inv gm st -> amend_step gm s inps outs vols st = Ok st' -> Inv gm st'.
+  Inv gm gr st -> amend_step gm ow s inps outs vols st = Ok st' -> Inv gm gr st'.
 Proof.
   intros HI H. unfold amend_step in H.
   destruct (require_step st (CStep s)); cbn [bind] in H; [|discriminate].
   destruct (dir_inputs (sort_uniq inps)); cbn [bind] in H; [|discriminate].
-  destruct (fold_res supply (sort_uniq inps) st) as [st1|] eqn:E1; cbn [bind] in H; [|discriminate].
+  destruct (fold_res (supply ow) (sort_uniq inps) st) as [st1|] eqn:E1; cbn [bind] in H; [|discriminate].
   destruct (fold_supply_inv _ _ _ HI E1) as [HI1 Hf1].
   destruct (check_all st1 (WNode (CStep s)) ROutput (sort_uniq outs)) as [outs'|] eqn:Eo;
     cbn [bind] in H; [|discriminate].
@@ -619,9 +645,9 @@ Proof.
     cbn [bind] in H; [|discriminate].
   apply unit_res_tt in Eg.
   assert (Hgf : forall p, In p outs' \/ In p vols' -> glob_free st1 p).
-  { intros p Hp. apply (glob_free_of_check st1 s (sort_uniq (outs' ++ vols'))); auto.
+  { intros p Hp. apply (glob_free_of_check st1 s (sort_uniq (outs' ++ vols'))); [exact Eg|].
     apply sort_uniq_in. apply in_or_app. exact Hp. }
-  destruct (fold_res (declare_file (CStep s) ROutput) outs' st1) as [st2|] eqn:E2;
+  destruct (fold_res (declare_file ow (CStep s) ROutput) outs' st1) as [st2|] eqn:E2;
     cbn [bind] in H; [|discriminate].
   destruct (fold_declare_inv _ _ _ _ _ HI1
               (fun p _ => non_tree_decl_ok st1 (CStep s) ROutput p ltac:(discriminate))
@@ -632,7 +658,7 @@ Proof.
   exact HI3.
 Qed.
 
-Theorem step_inv st r st' : Inv gm st -> step gm st r = Ok st' -> Inv gm st'.
+Theorem step_inv st r st' : Inv gm gr st -> step gm ow gr st r = Ok st' -> Inv gm gr st'.
 Proof.
   intros HI H. destruct r; cbn in H.
   - destruct (require_step st c) eqn:Er; cbn [bind] in H; [|discriminate].
@@ -646,23 +672,23 @@ Proof.
   - eapply amend_step_inv; eauto.
 Qed.
 
-Lemma step_skip_inv st r : Inv gm st -> Inv gm (step_skip gm st r).
+Lemma step_skip_inv st r : Inv gm gr st -> Inv gm gr (step_skip gm ow gr st r).
 Proof.
-  intros HI. unfold step_skip. destruct (step gm st r) eqn:E; [|assumption]. eapply step_inv; eauto.
+  intros HI. unfold step_skip. destruct (step gm ow gr st r) eqn:E; [|assumption]. eapply step_inv; eauto.
 Qed.
 
-Theorem run_skip_inv rs st : Inv gm st -> Inv gm (run_skip gm st rs).
+Theorem run_skip_inv rs st : Inv gm gr st -> Inv gm gr (run_skip gm ow gr st rs).
 Proof.
   revert st. induction rs as [|r rs IH]; intros st HI; cbn; [assumption|].
   apply IH. now apply step_skip_inv.
 Qed.
 
-Definition reachable (st : state) : Prop := exists rs, st = run_skip gm empty_state rs.
+Definition reachable (st : state) : Prop := exists rs, st = run_skip gm ow gr empty_state rs.
 
-Theorem reachable_inv st : reachable st -> Inv gm st.
+Theorem reachable_inv st : reachable st -> Inv gm gr st.
 Proof. intros [rs ->]. apply run_skip_inv. apply Inv_empty. Qed.
 
-Lemma reachable_run_skip st rs : reachable st -> reachable (run_skip gm st rs).
+Lemma reachable_run_skip st rs : reachable st -> reachable (run_skip gm ow gr st rs).
 Proof.
   intros [rs0 ->]. exists (rs0 ++ rs)%list. unfold run_skip. now rewrite fold_left_app.
 Qed.
@@ -671,7 +697,7 @@ Qed.
 Theorem claim_unique st p cl1 cl2 :
   reachable st -> In (p, cl1) (claims st) -> In (p, cl2) (claims st) -> cl1 = cl2.
 Proof.
-  intros HR H1 H2. apply reachable_inv in HR. pose proof (inv_uniq _ _ HR) as Hnd.
+  intros HR H1 H2. apply reachable_inv in HR. pose proof (inv_uniq _ _ _ HR) as Hnd.
   pose proof (lookup_in_nodup _ _ _ Hnd H2) as E2.
   pose proof (lookup_in_nodup _ _ _ Hnd H1) as E1. congruence.
 Qed.
@@ -681,7 +707,7 @@ Theorem tree_owns_everything_under st p cl t tc :
   c_role cl = RStatic /\ c_by cl = CTree t.
 Proof.
   intros HR Hc Ht Hp. apply reachable_inv in HR.
-  apply (inv_own _ _ HR p cl t); auto. eapply in_tree_labels; eauto.
+  apply (inv_own _ _ _ HR p cl t); auto. eapply in_tree_labels; eauto.
 Qed.
 
 Theorem no_product_under_tree st p cl t tc :
@@ -697,17 +723,17 @@ Theorem trees_disjoint st t tc t' tc' :
   t = t' /\ tc = tc'.
 Proof.
   intros HR H1 H2 Hp. apply reachable_inv in HR.
-  assert (t = t') by (apply (inv_anti _ _ HR); auto; eapply in_tree_labels; eauto). subst t'.
+  assert (t = t') by (apply (inv_anti _ _ _ HR); auto; eapply in_tree_labels; eauto). subst t'.
   split; [reflexivity|].
-  pose proof (lookup_in_nodup _ _ _ (inv_tnodup _ _ HR) H1).
-  pose proof (lookup_in_nodup _ _ _ (inv_tnodup _ _ HR) H2). congruence.
+  pose proof (lookup_in_nodup _ _ _ (inv_tnodup _ _ _ HR) H1).
+  pose proof (lookup_in_nodup _ _ _ (inv_tnodup _ _ _ HR) H2). congruence.
 Qed.
 
 (* The provable part of the glob clause: a recorded match of a registered pattern is never a
    build product, whichever came first. *)
 Theorem recorded_match_never_product st g m cl :
   reachable st -> In g (globs st) -> In m (g_ms g) -> In (m, cl) (claims st) -> c_role cl = RStatic.
-Proof. intros HR. apply reachable_inv in HR. apply (inv_gprod _ _ HR). Qed.
+Proof. intros HR. apply reachable_inv in HR. apply (inv_gprod _ _ _ HR). Qed.
 
 End Proofs.
 
@@ -725,7 +751,7 @@ Definition w_atxt : str := s2l "a.txt"%string.
 Definition w_gm (pat p : str) : bool := str_eqb pat w_pat && str_eqb p w_atxt.
 
 Definition w_boot : state :=
-  run_skip w_gm empty_state
+  run_skip w_gm true false empty_state
     [RqDefine CRoot w_plan [] [] []; RqDefine (CStep w_plan) w_A [] [] [];
      RqDefine (CStep w_plan) w_B [] [] []].
 
@@ -735,30 +761,30 @@ Definition accepted {A} (r : res A) : bool := match r with Ok _ => true | Err _ 
 Lemma glob_vs_planned_output_refuted :
   let r1 := RqGlob w_B w_pat [] in
   let r2 := RqAmend w_A [] [w_atxt] [] in
-  reachable w_gm w_boot /\
-  accepted (step w_gm w_boot r1) = true /\ accepted (step w_gm w_boot r2) = true /\
-  accepted (run w_gm w_boot [r1; r2]) = false /\ accepted (run w_gm w_boot [r2; r1]) = true.
+  reachable w_gm true false w_boot /\
+  accepted (step w_gm true false w_boot r1) = true /\ accepted (step w_gm true false w_boot r2) = true /\
+  accepted (run w_gm true false w_boot [r1; r2]) = false /\ accepted (run w_gm true false w_boot [r2; r1]) = true.
 Proof.
   cbv zeta. split; [eexists; reflexivity|]. vm_compute. repeat split; reflexivity.
 Qed.
 
 Lemma glob_never_matches_product_refuted :
-  exists st g p cl, reachable w_gm st /\ In g (globs st) /\ In (p, cl) (claims st) /\
+  exists st g p cl, reachable w_gm true false st /\ In g (globs st) /\ In (p, cl) (claims st) /\
                     c_role cl = ROutput /\ w_gm (g_pat g) p = true.
 Proof.
-  exists (run_skip w_gm w_boot [RqAmend w_A [] [w_atxt] []; RqGlob w_B w_pat []]).
+  exists (run_skip w_gm true false w_boot [RqAmend w_A [] [w_atxt] []; RqGlob w_B w_pat []]).
   exists (mkGlob w_B w_pat []), w_atxt, (mkClaim ROutput (CStep w_A)).
   split; [apply reachable_run_skip; eexists; reflexivity|].
   vm_compute. repeat split; auto.
 Qed.
 
-(* D11: a static tree d/ and a file whose path is the tree's own name d. *)
+(* D14: a static tree d/ and a file whose path is the tree's own name d. *)
 Lemma tree_vs_file_at_tree_path_refuted :
   let r1 := RqTree (CStep w_B) w_d in
   let r2 := RqAmend w_A [] [w_d] [] in
-  reachable w_gm w_boot /\
-  accepted (step w_gm w_boot r1) = true /\ accepted (step w_gm w_boot r2) = true /\
-  accepted (run w_gm w_boot [r1; r2]) = false /\ accepted (run w_gm w_boot [r2; r1]) = true.
+  reachable w_gm true false w_boot /\
+  accepted (step w_gm true false w_boot r1) = true /\ accepted (step w_gm true false w_boot r2) = true /\
+  accepted (run w_gm true false w_boot [r1; r2]) = false /\ accepted (run w_gm true false w_boot [r2; r1]) = true.
 Proof.
   cbv zeta. split; [eexists; reflexivity|]. vm_compute. repeat split; reflexivity.
 Qed.
@@ -766,18 +792,517 @@ Qed.
 Lemma tree_vs_static_at_tree_path_refuted :
   let r1 := RqTree (CStep w_B) w_d in
   let r2 := RqStatic (CStep w_A) [w_d] in
-  accepted (step w_gm w_boot r1) = true /\ accepted (step w_gm w_boot r2) = true /\
-  accepted (run w_gm w_boot [r1; r2]) = false /\ accepted (run w_gm w_boot [r2; r1]) = true.
+  accepted (step w_gm true false w_boot r1) = true /\ accepted (step w_gm true false w_boot r2) = true /\
+  accepted (run w_gm true false w_boot [r1; r2]) = false /\ accepted (run w_gm true false w_boot [r2; r1]) = true.
 Proof. vm_compute. repeat split; reflexivity. Qed.
 
 (* The owner lookup (path + "/") and the prefix scan disagree on exactly this spelling: the
    owner-lookup form of the ownership invariant does not hold in reachable states. *)
 Lemma owner_lookup_invariant_refuted :
-  exists st p cl t tc, reachable w_gm st /\ In (p, cl) (claims st) /\ In (t, tc) (trees st) /\
+  exists st p cl t tc, reachable w_gm true false st /\ In (p, cl) (claims st) /\ In (t, tc) (trees st) /\
                        is_prefix t (with_slash p) = true /\ c_role cl = ROutput.
 Proof.
-  exists (run_skip w_gm w_boot [RqAmend w_A [] [w_d] []; RqTree (CStep w_B) w_d]).
+  exists (run_skip w_gm true false w_boot [RqAmend w_A [] [w_d] []; RqTree (CStep w_B) w_d]).
   exists w_d, (mkClaim ROutput (CStep w_A)), (with_slash w_d), (CStep w_B).
   split; [apply reachable_run_skip; eexists; reflexivity|].
   vm_compute. repeat split; auto.
 Qed.
+
+(* ------------------------------------------------------------------------------------------ *)
+(* 2. Repeating a declaration by the same creator in the same role is a no-op                  *)
+(* ------------------------------------------------------------------------------------------ *)
+
+Section Redeclare.
+
+Variable gm : str -> str -> bool.
+Variable ow : bool.
+Variable gr : bool.
+
+Lemma role_eqb_refl r : role_eqb r r = true.
+Proof. now destruct r. Qed.
+
+Lemma creator_eqb_refl c : creator_eqb c c = true.
+Proof. now apply creator_eqb_eq. Qed.
+
+Lemma declare_file_claims c r st p st' :
+  declare_file ow c r st p = Ok st' -> claims st' = (p, mkClaim r c) :: claims st.
+Proof.
+  unfold declare_file. intros H.
+  destruct (role_eqb r RVolatile && ends_with_c SLASH p); [discriminate|].
+  match type of H with bind ?x _ = _ => destruct x; cbn [bind] in H; [|discriminate] end.
+  dres H. now inversion H.
+Qed.
+
+Lemma fold_declare_claims c r ps st st' :
+  fold_res (declare_file ow c r) ps st = Ok st' ->
+  incl (claims st) (claims st') /\ forall p, In p ps -> In (p, mkClaim r c) (claims st').
+Proof.
+  revert st. induction ps as [|p ps IH]; intros st H; cbn in H.
+  - inversion H; subst. split; [apply incl_refl|intros p []].
+  - destruct (declare_file ow c r st p) as [s1|] eqn:E; cbn [bind] in H; [|discriminate].
+    apply declare_file_claims in E. destruct (IH _ H) as [Hincl Hall]. split.
+    + intros x Hx. apply Hincl. rewrite E. now right.
+    + intros q [<-|Hq]; [|now apply Hall]. apply Hincl. rewrite E. now left.
+Qed.
+
+Lemma fold_declare_pairs r (l : list (creator * str)) st st' :
+  fold_res (fun s dp => declare_file ow (fst dp) r s (snd dp)) l st = Ok st' ->
+  incl (claims st) (claims st') /\ forall dp, In dp l -> In (snd dp, mkClaim r (fst dp)) (claims st').
+Proof.
+  revert st. induction l as [|dp l IH]; intros st H; cbn in H.
+  - inversion H; subst. split; [apply incl_refl|intros p []].
+  - destruct (declare_file ow (fst dp) r st (snd dp)) as [s1|] eqn:E; cbn [bind] in H; [|discriminate].
+    apply declare_file_claims in E. destruct (IH _ H) as [Hincl Hall]. split.
+    + intros x Hx. apply Hincl. rewrite E. now right.
+    + intros q [<-|Hq]; [|now apply Hall]. apply Hincl. rewrite E. now left.
+Qed.
+
+Lemma find_owner_frame st st' p : trees st' = trees st -> find_owner ow st' p = find_owner ow st p.
+Proof. intros H. unfold find_owner, owners. now rewrite H. Qed.
+
+Lemma check_decl_held st c p r :
+  NoDup (map fst (claims st)) -> In (p, mkClaim r c) (claims st) ->
+  check_decl st (WNode c) p r = Ok false.
+Proof.
+  intros Hnd Hin. unfold check_decl. rewrite (lookup_in_nodup _ _ _ Hnd Hin). cbn.
+  now rewrite role_eqb_refl, creator_eqb_refl.
+Qed.
+
+(* If the first check said "new" the path is in the to-do list; if it said "held" it was held. *)
+Lemma check_decl_false_held st c p r :
+  check_decl st (WNode c) p r = Ok false -> In (p, mkClaim r c) (claims st).
+Proof.
+  unfold check_decl. destruct (lookup p (claims st)) as [cl|] eqn:El; [|discriminate].
+  destruct (role_eqb (c_role cl) r && creator_eqb (c_by cl) c) eqn:E.
+  - intros _. apply andb_true_iff in E as [E1 E2]. apply role_eqb_eq in E1.
+    apply creator_eqb_eq in E2. apply lookup_some_in in El. destruct cl. cbn in *. now subst.
+  - destruct (decl_of_node r c); discriminate.
+Qed.
+
+(* The declarer that static_check settles on (depends on the trees only). *)
+Definition static_declarer (c : creator) (st : state) (p : str) : res creator :=
+  match c with
+  | CTree _ => Ok c
+  | _ => bind (find_owner ow st p) (fun o =>
+           match o with
+           | None => Ok c
+           | Some (t, tc) => if creator_eqb tc c then Ok (CTree t) else Err (MTreeFile t p)
+           end)
+  end.
+
+Lemma static_check_unfold c st p :
+  static_check ow c st p =
+  bind (static_declarer c st p) (fun declarer =>
+  bind (check_decl st (WNode declarer) p RStatic) (fun is_new =>
+  Ok (if is_new then Some (declarer, p) else None))).
+Proof. reflexivity. Qed.
+
+Lemma static_checks_again c st st' ps todo :
+  static_checks ow c st ps = Ok todo ->
+  trees st' = trees st -> NoDup (map fst (claims st')) -> incl (claims st) (claims st') ->
+  (forall dp, In dp todo -> In (snd dp, mkClaim RStatic (fst dp)) (claims st')) ->
+  static_checks ow c st' ps = Ok [].
+Proof.
+  intros H Ht Hnd Hincl. revert todo H. induction ps as [|p ps IH]; intros todo H Htodo; cbn in *.
+  - reflexivity.
+  - rewrite static_check_unfold in *.
+    assert (Hd : static_declarer c st' p = static_declarer c st p).
+    { unfold static_declarer. now rewrite (find_owner_frame st st' p Ht). }
+    rewrite Hd. destruct (static_declarer c st p) as [dcl|]; cbn [bind] in *; [|discriminate].
+    destruct (check_decl st (WNode dcl) p RStatic) as [b|] eqn:Eb; cbn [bind] in H; [|discriminate].
+    destruct (static_checks ow c st ps) as [l|] eqn:El; cbn [bind] in H; [|discriminate].
+    inversion H; subst todo. clear H.
+    assert (Hheld : In (p, mkClaim RStatic dcl) (claims st')).
+    { destruct b.
+      - apply (Htodo (dcl, p)). now left.
+      - apply Hincl. now apply check_decl_false_held. }
+    rewrite (check_decl_held st' dcl p RStatic Hnd Hheld). cbn [bind].
+    rewrite (IH l eq_refl); [reflexivity|].
+    intros dp Hdp. apply Htodo. destruct b; [now right|assumption].
+Qed.
+
+Lemma declare_static_files_again c st ps st' :
+  Inv gm gr st -> (forall p, In p ps -> tree_decl_ok ow st c RStatic p) ->
+  declare_static_files ow c st ps = Ok st' -> declare_static_files ow c st' ps = Ok st'.
+Proof.
+  intros HI Hc H. destruct (declare_static_files_inv gm ow gr c st ps st' HI Hc H) as [HI' [Ht _]].
+  unfold declare_static_files in *.
+  destruct (static_checks ow c st (sort_uniq ps)) as [todo|] eqn:E; cbn [bind] in H; [|discriminate].
+  destruct (fold_declare_pairs _ _ _ _ H) as [Hincl Hall].
+  rewrite (static_checks_again c st st' _ todo E Ht (inv_uniq _ _ _ HI') Hincl Hall). reflexivity.
+Qed.
+
+Lemma check_all_again st st' c r ps l :
+  check_all st (WNode c) r ps = Ok l ->
+  NoDup (map fst (claims st')) -> incl (claims st) (claims st') ->
+  (forall p, In p l -> In (p, mkClaim r c) (claims st')) ->
+  check_all st' (WNode c) r ps = Ok [].
+Proof.
+  intros H Hnd Hincl. revert l H. induction ps as [|p ps IH]; intros l H Hl; cbn in *; [reflexivity|].
+  destruct (check_decl st (WNode c) p r) as [b|] eqn:Eb; cbn [bind] in H; [|discriminate].
+  destruct (check_all st (WNode c) r ps) as [l0|] eqn:El; cbn [bind] in H; [|discriminate].
+  inversion H; subst l. clear H.
+  assert (Hheld : In (p, mkClaim r c) (claims st')).
+  { destruct b; [apply Hl; now left|]. apply Hincl. now apply check_decl_false_held. }
+  rewrite (check_decl_held st' c p r Hnd Hheld). cbn [bind].
+  rewrite (IH l0 eq_refl); [reflexivity|]. intros q Hq. apply Hl. destruct b; [now right|assumption].
+Qed.
+
+Lemma glob_check_nil gs lbl : glob_check gm gs lbl [] = Ok tt.
+Proof. induction gs as [|g gs IH]; cbn; auto. Qed.
+
+Lemma declare_file_frame c r st p st' :
+  declare_file ow c r st p = Ok st' -> same_frame st st'.
+Proof.
+  unfold declare_file. intros H.
+  destruct (role_eqb r RVolatile && ends_with_c SLASH p); [discriminate|].
+  match type of H with bind ?x _ = _ => destruct x; cbn [bind] in H; [|discriminate] end.
+  dres H. inversion H. repeat split.
+Qed.
+
+Lemma fold_declare_frame c r ps st st' :
+  fold_res (declare_file ow c r) ps st = Ok st' -> same_frame st st'.
+Proof.
+  revert st. induction ps as [|p ps IH]; intros st H; cbn in H.
+  - inversion H. apply same_frame_refl.
+  - destruct (declare_file ow c r st p) as [s1|] eqn:E; cbn [bind] in H; [|discriminate].
+    eapply same_frame_trans; [eapply declare_file_frame; eauto|auto].
+Qed.
+
+Lemma amend_outputs_again s outs vols st st' :
+  Inv gm gr st -> amend_step gm ow s [] outs vols st = Ok st' ->
+  amend_step gm ow s [] outs vols st' = Ok st'.
+Proof.
+  intros HI H. pose proof (amend_step_inv gm ow gr s [] outs vols st st' HI H) as HI'.
+  unfold amend_step in *.
+  destruct (require_step st (CStep s)) eqn:Er; cbn [bind] in H; [|discriminate].
+  cbn [sort_uniq fold_right dir_inputs find_first fold_res bind] in *.
+  destruct (check_all st (WNode (CStep s)) ROutput (sort_uniq outs)) as [outs'|] eqn:Eo;
+    cbn [bind] in H; [|discriminate].
+  destruct (check_all st (WNode (CStep s)) RVolatile (sort_uniq vols)) as [vols'|] eqn:Ev;
+    cbn [bind] in H; [|discriminate].
+  destruct (overlap_check (phrase_step s) outs' vols'); cbn [bind] in H; [|discriminate].
+  destruct (glob_check gm (globs st) s (sort_uniq (outs' ++ vols'))); cbn [bind] in H; [|discriminate].
+  destruct (fold_res (declare_file ow (CStep s) ROutput) outs' st) as [st2|] eqn:E2;
+    cbn [bind] in H; [|discriminate].
+  destruct (fold_declare_claims _ _ _ _ _ E2) as [Hi2 Ha2].
+  destruct (fold_declare_claims _ _ _ _ _ H) as [Hi3 Ha3].
+  pose proof (same_frame_trans _ _ _ (fold_declare_frame _ _ _ _ _ E2) (fold_declare_frame _ _ _ _ _ H))
+    as [_ [Hsteps _]].
+  assert (Er' : require_step st' (CStep s) = Ok tt).
+  { unfold require_step, step_exists in *. rewrite Hsteps. destruct a. exact Er. }
+  rewrite Er'. cbn [bind].
+  rewrite (check_all_again st st' (CStep s) ROutput _ outs' Eo (inv_uniq _ _ _ HI')).
+  2:{ intros x Hx. apply Hi3. now apply Hi2. }
+  2:{ intros q Hq. apply Hi3. now apply Ha2. }
+  cbn [bind].
+  rewrite (check_all_again st st' (CStep s) RVolatile _ vols' Ev (inv_uniq _ _ _ HI')).
+  2:{ intros x Hx. apply Hi3. now apply Hi2. }
+  2:{ intros q Hq. now apply Ha3. }
+  cbn [bind app sort_uniq fold_right overlap_check find_first fold_res].
+  rewrite glob_check_nil. reflexivity.
+Qed.
+
+Lemma register_tree_again c path st st' :
+  Inv gm gr st -> register_tree ow c path st = Ok st' -> register_tree ow c path st' = Ok st'.
+Proof.
+  intros HI H. pose proof H as H0. unfold register_tree in H.
+  destruct (require_step st c) eqn:Er; cbn [bind] in H; [|discriminate].
+  destruct (str_eqb path stepup_dir || is_prefix stepup_prefix path) eqn:E1; [discriminate|].
+  set (d := with_slash path) in *.
+  destruct (str_eqb d [46; SLASH] || str_eqb d []) eqn:E2; [discriminate|].
+  destruct (str_eqb d [SLASH]) eqn:E3; [discriminate|].
+  destruct (find_owner ow st d) as [o|] eqn:Eo; cbn [bind] in H; [|discriminate].
+  destruct o as [[t tc]|].
+  - destruct (creator_eqb tc c).
+    + inversion H; subst. exact H0.
+    + destruct (str_eqb t d); [|discriminate].
+      destruct (phrase_of tc) as [x|]; [destruct (phrase_of c) as [y|]|]; try discriminate.
+      destruct (sort2_str x y). discriminate.
+  - destruct (existsb (fun tc => is_prefix d (fst tc)) (trees st)) eqn:Eex; [discriminate|].
+    destruct (min_entry (filter (offending c) (filter (fun pc => is_prefix d (fst pc)) (claims st))))
+      as [[p cl]|] eqn:Emin.
+    { destruct (negb (role_eqb (c_role cl) RStatic)); discriminate. }
+    match type of H with declare_static_files _ _ ?s _ = _ => set (st1 := s) in * end.
+    assert (Hfr : trees st' = (d, c) :: trees st /\ steps st' = steps st).
+    { unfold declare_static_files in H.
+      destruct (static_checks ow (CTree d) st1 (sort_uniq (filter (is_prefix d) (loose st)))) as [l0|];
+        cbn [bind] in H; [|discriminate].
+      clear -H.
+      assert (G : forall l s, fold_res (fun s dp => declare_file ow (fst dp) RStatic s (snd dp)) l s = Ok st' ->
+                  trees st' = trees s /\ steps st' = steps s).
+      { induction l as [|dp l IH]; intros s Hs; cbn [fold_res] in Hs.
+        - inversion Hs. auto.
+        - destruct (declare_file ow (fst dp) RStatic s (snd dp)) as [s1|] eqn:E; cbn [bind] in Hs; [|discriminate Hs].
+          apply declare_file_frame in E as [Et [Es _]]. destruct (IH _ Hs) as [A B]. split; congruence. }
+      apply (G l0 st1 H). }
+    destruct Hfr as [Htr Hsteps].
+    unfold register_tree.
+    assert (Er' : require_step st' c = Ok tt).
+    { unfold require_step, step_exists in *. rewrite Hsteps. destruct a. exact Er. }
+    rewrite Er'. cbn [bind]. rewrite E1. fold d. rewrite E2, E3.
+    assert (Hown : find_owner ow st' d = Ok (Some (d, c))).
+    { unfold find_owner, owners. rewrite Htr. cbn [filter fst].
+      assert (Hpd : probe ow d = d) by (apply probe_with_slash). rewrite Hpd, is_prefix_refl.
+      assert (Hnil : filter (fun tc => is_prefix (fst tc) d) (trees st) = []).
+      { unfold find_owner, owners in Eo. rewrite Hpd in Eo.
+        destruct (filter (fun tc => is_prefix (fst tc) d) (trees st)) as [|x [|y l]]; [reflexivity| |];
+          discriminate. }
+      now rewrite Hnil. }
+    rewrite Hown. cbn [bind]. now rewrite creator_eqb_refl.
+Qed.
+
+(* The requests that are declarations of paths (a glob owns nothing; a step is not a path). *)
+Definition is_declaration (r : req) : bool :=
+  match r with
+  | RqStatic _ _ | RqTree _ _ => true
+  | RqAmend _ inps _ _ => match inps with [] => true | _ => false end
+  | _ => false
+  end.
+
+Theorem same_creator_redeclare_noop st r st' :
+  Inv gm gr st -> is_declaration r = true -> step gm ow gr st r = Ok st' ->
+  step gm ow gr st' r = Ok st'.
+Proof.
+  intros HI Hd H. destruct r; cbn in Hd; try discriminate; cbn in *.
+  - destruct (require_step st c) eqn:Er; cbn [bind] in H; [|discriminate].
+    assert (Hnt : forall t, c <> CTree t).
+    { intros t ->. unfold require_step in Er. cbn in Er. discriminate. }
+    assert (Hok : forall p, In p ps -> tree_decl_ok ow st c RStatic p).
+    { intros p _. now apply non_tree_decl_ok. }
+    destruct (declare_static_files_inv gm ow gr c st ps st' HI Hok H) as [_ [_ [Hsteps _]]].
+    assert (Er' : require_step st' c = Ok tt).
+    { unfold require_step, step_exists in *. rewrite Hsteps. destruct a. exact Er. }
+    rewrite Er'. cbn [bind]. eapply declare_static_files_again; eauto.
+  - eapply register_tree_again; eauto.
+  - destruct inps; [|discriminate]. eapply amend_outputs_again; eauto.
+Qed.
+
+End Redeclare.
+
+(* ------------------------------------------------------------------------------------------ *)
+(* 4. The collision messages do not depend on which declaration came first                     *)
+(* ------------------------------------------------------------------------------------------ *)
+
+(* FileRole values are pairwise distinct (generated from enums.py). *)
+Lemma role_val_inj a b : role_val a = role_val b -> a = b.
+Proof. destruct a, b; intros H; vm_compute in H; congruence. Qed.
+
+Lemma lex_lt_asym a b : lex_lt a b = true -> lex_lt b a = false.
+Proof.
+  intros H. destruct (lex_lt b a) eqn:E; [|reflexivity].
+  pose proof (lex_lt_trans _ _ _ H E) as Hx. rewrite lex_lt_irrefl in Hx. discriminate.
+Qed.
+
+Lemma lex_lt_total_eq a b : lex_lt a b = false -> lex_lt b a = false -> a = b.
+Proof. intros H1 H2. destruct (lex_total a b) as [H|[H|H]]; congruence. Qed.
+
+Lemma decl_lt_asym a b : decl_lt a b = true -> decl_lt b a = false.
+Proof.
+  unfold decl_lt. intros H.
+  destruct (role_val (d_role a) <? role_val (d_role b)) eqn:E1.
+  - apply N.ltb_lt in E1. destruct (role_val (d_role b) <? role_val (d_role a)) eqn:E2.
+    + apply N.ltb_lt in E2. lia.
+    + reflexivity.
+  - destruct (role_val (d_role b) <? role_val (d_role a)) eqn:E2; [discriminate|].
+    destruct (lex_lt (d_who a) (d_who b)) eqn:E3.
+    + now rewrite (lex_lt_asym _ _ E3).
+    + destruct (lex_lt (d_who b) (d_who a)) eqn:E4; [discriminate|].
+      destruct (d_auth a), (d_auth b); cbn in *; congruence.
+Qed.
+
+Lemma decl_lt_total a b : decl_lt a b = false -> decl_lt b a = false -> a = b.
+Proof.
+  unfold decl_lt. intros H1 H2.
+  destruct (role_val (d_role a) <? role_val (d_role b)) eqn:E1; [discriminate|].
+  destruct (role_val (d_role b) <? role_val (d_role a)) eqn:E2; [discriminate|].
+  apply N.ltb_ge in E1, E2. assert (Hr : d_role a = d_role b) by (apply role_val_inj; lia).
+  destruct (lex_lt (d_who a) (d_who b)) eqn:E3; [discriminate|].
+  destruct (lex_lt (d_who b) (d_who a)) eqn:E4; [discriminate|].
+  pose proof (lex_lt_total_eq _ _ E3 E4) as Hw.
+  destruct a as [ra wa aa], b as [rb wb ab]. cbn in *. subst.
+  destruct aa, ab; cbn in *; congruence.
+Qed.
+
+Lemma sort2_decl_sym a b : sort2_decl a b = sort2_decl b a.
+Proof.
+  unfold sort2_decl. destruct (decl_lt b a) eqn:E1, (decl_lt a b) eqn:E2; try reflexivity.
+  - rewrite (decl_lt_asym _ _ E1) in E2. discriminate.
+  - now rewrite (decl_lt_total _ _ E2 E1).
+Qed.
+
+Lemma sort2_str_sym a b : sort2_str a b = sort2_str b a.
+Proof.
+  unfold sort2_str. destruct (lex_lt b a) eqn:E1, (lex_lt a b) eqn:E2; try reflexivity.
+  - rewrite (lex_lt_asym _ _ E1) in E2. discriminate.
+  - now rewrite (lex_lt_total_eq _ _ E2 E1).
+Qed.
+
+(* _file_collision_message(path, a, b) = _file_collision_message(path, b, a), as structured
+   message and hence as text. *)
+Theorem file_collision_sym p a b : file_collision p a b = file_collision p b a.
+Proof. unfold file_collision. now rewrite (sort2_decl_sym a b). Qed.
+
+Lemma decl_of_node_step r l : decl_of_node r (CStep l) = Ok (mkDecl r (phrase_step l) true).
+Proof. reflexivity. Qed.
+
+(* The check that fires when declaration 2 meets the existing claim 1 produces the same message
+   as the check that fires when declaration 1 meets the existing claim 2 (files declared by
+   steps or by StepUp itself; a tree never declares through _check_declaration with a phrase). *)
+Theorem collision_message_symmetric p r1 c1 r2 c2 d1 d2 :
+  decl_of_node r1 c1 = Ok d1 -> decl_of_node r2 c2 = Ok d2 ->
+  claim_collision p (mkClaim r1 c1) d2 = claim_collision p (mkClaim r2 c2) d1.
+Proof.
+  intros H1 H2. unfold claim_collision. cbn [c_by c_role].
+  destruct c1 as [|l1|t1]; try (cbn in H1; discriminate);
+  destruct c2 as [|l2|t2]; try (cbn in H2; discriminate);
+  rewrite H1, H2; apply file_collision_sym.
+Qed.
+
+Theorem collision_text_symmetric p r1 c1 r2 c2 d1 d2 :
+  decl_of_node r1 c1 = Ok d1 -> decl_of_node r2 c2 = Ok d2 ->
+  render (claim_collision p (mkClaim r1 c1) d2) = render (claim_collision p (mkClaim r2 c2) d1).
+Proof. intros H1 H2. now rewrite (collision_message_symmetric p r1 c1 r2 c2 d1 d2 H1 H2). Qed.
+
+(* Duplicate static tree / duplicate step: the two creators are sorted. *)
+Theorem dup_messages_symmetric t a b :
+  (let (c1, c2) := sort2_str a b in MDupTree t c1 c2) = (let (c1, c2) := sort2_str b a in MDupTree t c1 c2) /\
+  (let (c1, c2) := sort2_str a b in MDupStep t c1 c2) = (let (c1, c2) := sort2_str b a in MDupStep t c1 c2).
+Proof. now rewrite (sort2_str_sym a b). Qed.
+
+(* The tree messages and the glob message print their parties in a fixed order (tree, path /
+   pattern, glob step, path, building step) at both raising sites; see either-order lemmas. *)
+
+(* ------------------------------------------------------------------------------------------ *)
+(* 3. Either order                                                                             *)
+(* ------------------------------------------------------------------------------------------ *)
+
+Section EitherOrder.
+
+Variable gm : str -> str -> bool.
+Variable gr : bool.
+
+(* File versus file: an unclaimed path p, two different declarations (role, creator) of it by
+   steps or StepUp itself.  Whichever is made first, the other is rejected, with the same
+   structured message. *)
+Theorem file_file_either_order st p r1 c1 r2 c2 d1 d2 :
+  lookup p (claims st) = None ->
+  decl_of_node r1 c1 = Ok d1 -> decl_of_node r2 c2 = Ok d2 ->
+  (role_eqb r1 r2 && creator_eqb c1 c2 = false) ->
+  exists m,
+    check_decl (set_claim st p (mkClaim r1 c1)) (WNode c2) p r2 = Err m /\
+    check_decl (set_claim st p (mkClaim r2 c2)) (WNode c1) p r1 = Err m.
+Proof.
+  intros Hl H1 H2 Hne. exists (claim_collision p (mkClaim r1 c1) d2). unfold check_decl. cbn [claims set_claim lookup].
+  rewrite !str_eqb_refl. cbn [c_role c_by]. rewrite Hne.
+  assert (Hne' : role_eqb r2 r1 && creator_eqb c2 c1 = false).
+  { destruct (role_eqb r2 r1 && creator_eqb c2 c1) eqn:E; [|reflexivity].
+    apply andb_true_iff in E as [E1 E2]. apply role_eqb_eq in E1. apply creator_eqb_eq in E2. subst.
+    now rewrite role_eqb_refl, creator_eqb_refl in Hne. }
+  rewrite Hne', H1, H2. split; [reflexivity|].
+  f_equal. symmetry. now apply collision_message_symmetric.
+Qed.
+
+(* The two code paths of the tree checks: the owner lookup (tree label is a prefix of the probe)
+   and the scan of register_static_tree (tree label is a prefix of the file label).  With the
+   probe `path` (ow = false) they are the same test; with the probe `path + "/"` (ow = true,
+   the unfixed code) they differ on exactly one spelling: the file named like the tree. *)
+Lemma prefix_snoc (d p : str) (x : N) :
+  is_prefix d (p ++ [x]) = true -> is_prefix d p = false -> d = p ++ [x].
+Proof.
+  revert p. induction d as [|y d IH]; intros p H1 H2; [discriminate|].
+  destruct p as [|z p]; cbn in *.
+  - apply andb_true_iff in H1 as [Hy Hd]. apply N.eqb_eq in Hy. subst. destruct d; [reflexivity|discriminate].
+  - apply andb_true_iff in H1 as [Hy Hd]. apply N.eqb_eq in Hy. subst. rewrite N.eqb_refl in H2. cbn in H2.
+    f_equal. now apply IH.
+Qed.
+
+Theorem owner_lookup_vs_scan d p :
+  is_prefix d (probe false p) = is_prefix d p /\
+  (is_prefix d (probe true p) = true -> is_prefix d p = false -> d = p ++ [SLASH]).
+Proof.
+  split; [reflexivity|]. unfold probe, with_slash. intros H1 H2.
+  destruct p as [|x p]; [congruence|]. destruct (ends_with_c SLASH (x :: p)); [congruence|].
+  now apply prefix_snoc.
+Qed.
+
+(* Tree versus product, decision level, for the probe `path`: a product p (claimed in role r,
+   not static) and a tree d.  Tree first: _declare_file finds the tree as owner of p exactly
+   when the scan of register_static_tree, product first, finds p under d; both raise the same
+   structured message. *)
+Theorem tree_product_either_order (d p : str) (c : creator) (cl : claim) trees0 :
+  c_role cl <> RStatic ->
+  let st_tree := mkState [] [] ((d, c) :: trees0) [] [] in
+  (forall t, In t (map fst trees0) -> is_prefix t p = false) ->
+  (* tree first, then the product *)
+  (is_prefix d p = true ->
+     find_owner false st_tree p = Ok (Some (d, c))) /\
+  (is_prefix d p = false -> find_owner false st_tree p = Ok None) /\
+  (* product first, then the tree: the scan sees the product exactly in the same case *)
+  (is_prefix d p = true ->
+     min_entry (filter (offending c) (filter (fun pc => is_prefix d (fst pc)) [(p, cl)])) = Some (p, cl)) /\
+  (is_prefix d p = false ->
+     min_entry (filter (offending c) (filter (fun pc => is_prefix d (fst pc)) [(p, cl)])) = None).
+Proof.
+  intros Hr st_tree Hno.
+  assert (Hnil : filter (fun tc : str * creator => is_prefix (fst tc) p) trees0 = []).
+  { induction trees0 as [|[t tc] l IH]; [reflexivity|]. cbn.
+    rewrite (Hno t (or_introl eq_refl)). apply IH. intros t' Ht'. apply Hno. now right. }
+  assert (Hoff : offending c (p, cl) = true).
+  { unfold offending. cbn. destruct (role_eqb (c_role cl) RStatic) eqn:E; [|reflexivity].
+    apply role_eqb_eq in E. contradiction. }
+  repeat split; intros Hp; unfold find_owner, owners, probe; cbn [trees st_tree filter fst];
+    rewrite ?Hp, ?Hnil; cbn [filter fst]; rewrite ?Hoff; reflexivity.
+Qed.
+
+(* Glob versus product, decision level, when register_nglob scans the products (gr = true):
+   pattern first, _raise_if_glob_match rejects the product p iff gm pat p; product first,
+   register_nglob rejects the pattern iff gm pat p; same structured message. *)
+Theorem glob_product_either_order (s pat lbl p : str) (ms : list str) (cl : claim) :
+  c_role cl <> RStatic -> c_by cl = CStep lbl ->
+  glob_check gm [mkGlob s pat ms] lbl [p] =
+    (if gm pat p then Err (MGlobProduct pat s p lbl) else Ok tt) /\
+  (match min_entry (filter (fun pc : str * claim => negb (role_eqb (c_role (snd pc)) RStatic) && gm pat (fst pc))
+                           [(p, cl)]) with
+   | Some (q, cl') => Err (MGlobProduct pat s q (creator_label (c_by cl')))
+   | None => Ok tt
+   end) = (if gm pat p then Err (MGlobProduct pat s p lbl) else Ok tt).
+Proof.
+  intros Hr Hby. split.
+  - cbn. destruct (gm pat p); reflexivity.
+  - cbn. destruct (role_eqb (c_role cl) RStatic) eqn:E; [apply role_eqb_eq in E; contradiction|].
+    cbn. destruct (gm pat p); [|reflexivity]. cbn. now rewrite Hby.
+Qed.
+
+End EitherOrder.
+
+(* ------------------------------------------------------------------------------------------ *)
+(* Tables generated from enums.py                                                              *)
+(* ------------------------------------------------------------------------------------------ *)
+
+Definition all_roles : list role := [RStatic; ROutput; RVolatile].
+
+(* _declare_file(creator, path, state) claims the path in the role FILE_ROLE_BY_STATE[state], for
+   the three declarable states; FILE_ROLE_BY_STATE is the inverse of FILE_STATES_BY_ROLE. *)
+Lemma role_tables_consistent :
+  forallb (fun r => assoc_n (declared_state_val r) role_by_state 0 =? role_val r) all_roles = true /\
+  forallb (fun sr => existsb (fun rs => (fst rs =? snd sr) && existsb (N.eqb (fst sr)) (snd rs))
+                             states_by_role) role_by_state = true /\
+  forallb (fun rs => forallb (fun s => assoc_n s role_by_state 0 =? fst rs) (snd rs)) states_by_role = true /\
+  forallb (fun s => existsb (N.eqb s) declarable_states)
+          (map declared_state_val all_roles) = true.
+Proof. vm_compute. repeat split; reflexivity. Qed.
+
+(* Equality of states up to the order of the association lists. *)
+Definition state_equiv (a b : state) : Prop :=
+  (forall p, lookup p (claims a) = lookup p (claims b)) /\
+  (forall t, lookup t (trees a) = lookup t (trees b)) /\
+  (forall l, lookup l (steps a) = lookup l (steps b)) /\
+  (forall p, mem_str p (loose a) = mem_str p (loose b)) /\
+  (forall g, In g (globs a) <-> In g (globs b)).
+
+Definition req_creator (r : req) : creator :=
+  match r with
+  | RqStatic c _ | RqTree c _ | RqDefine c _ _ _ _ => c
+  | RqGlob s _ _ | RqAmend s _ _ _ => CStep s
+  end.
